@@ -39,6 +39,8 @@ pub enum Op {
     RustfmtConfig(Option<String>),
     ClangArg(String),
     FieldAttr(String, String, String),
+    /// `.header(extra_<k>.h)`: one more input header (the worker writes three of them)
+    Header(u8),
 }
 
 pub const NULLARY: &[(&str, &str)] = &[
@@ -329,6 +331,7 @@ pub fn apply(b: bindgen::Builder, op: &Op, dir: &Path) -> Result<bindgen::Builde
         Op::Depfile(target, rel) => b.depfile(target.as_str(), p(rel)),
         Op::RustfmtConfig(rel) => b.rustfmt_configuration_file(rel.as_ref().map(|r| p(r))),
         Op::ClangArg(a) => b.clang_arg(a.as_str()),
+        Op::Header(k) => b.header(dir.join(format!("extra_{}.h", k % 3)).to_str().unwrap()),
         Op::FieldAttr(t, f, a) => b.field_attribute(t.as_str(), f.as_str(), a.as_str()),
     })
 }
@@ -364,6 +367,7 @@ pub fn cli_form(op: &Op, dir: &Path) -> Option<Vec<String>> {
         Op::RustfmtConfig(Some(rel)) => Some(vec!["--rustfmt-configuration-file".into(), p(rel)]),
         Op::RustfmtConfig(None) => None,
         Op::ClangArg(_) => None,
+        Op::Header(_) => None,
         Op::FieldAttr(t, f, a) => Some(vec!["--field-attr".into(), format!("{t}::{f}={a}")]),
     }
 }
@@ -476,6 +480,7 @@ pub fn op_strategy() -> BoxedStrategy<Op> {
         1 => (prop_oneof![Just("out.rs"), Just("my target"), Just("t\\x")], prop_oneof![Just("dep.d"), Just("dir with space/dep.d")]).prop_map(|(t, p)| Op::Depfile(t.to_string(), p.to_string())),
         1 => prop_oneof![Just(None), Just(Some("rustfmt.toml".to_string()))].prop_map(Op::RustfmtConfig),
         2 => prop_oneof![Just("-DX=1"), Just("-I."), Just("-std=c++17"), Just("-DY=\"a b\""), Just("-Wall")].prop_map(|s| Op::ClangArg(s.to_string())),
+        2 => (0u8..3).prop_map(Op::Header),
         1 => (prop_oneof![Just("Foo"), Just("ns::Inner"), Just(".*")], prop_oneof![Just("a"), Just("x"), Just(".*")], prop_oneof![Just("#[allow(dead_code)]"), Just("#[cfg(all())]"), Just("a=b")]).prop_map(|(t, f, a)| Op::FieldAttr(t.to_string(), f.to_string(), a.to_string())),
     ]
     .boxed()
@@ -556,6 +561,17 @@ pub fn worker_c13(req: &Value, _io: &mut ServerIo) -> Value {
     let hname = if case.cpp { "in.hpp" } else { "in.h" };
     std::fs::write(dir.join(hname), if case.cpp { HEADER_CPP } else { HEADER_C }).ok();
     std::fs::write(dir.join("rustfmt.toml"), "max_width = 70\n").ok();
+    // extra input headers: order-sensitive (each sees which of the others came first)
+    for k in 0..3 {
+        let mut t = format!("#ifndef BGV_EXTRA_{k}\n#define BGV_EXTRA_{k} {k}\n");
+        for j in 0..3 {
+            if j != k {
+                t.push_str(&format!("#ifdef BGV_EXTRA_{j}\ntypedef int extra_{k}_after_{j};\n#endif\n"));
+            }
+        }
+        t.push_str(&format!("#ifdef MACRO_A\ntypedef int extra_{k}_after_main;\n#endif\nstruct Extra{k} {{ int v{k}; }};\n#endif\n"));
+        std::fs::write(dir.join(format!("extra_{k}.h")), t).ok();
+    }
     let header = dir.join(hname).to_str().unwrap().to_string();
     let progress = |v: &Value| {
         let _ = std::fs::write(dir.join("progress.json"), v.to_string());
@@ -697,7 +713,9 @@ fn singles() -> Vec<Op> {
     v.push(Op::Depfile("out.rs".into(), "dep.d".into()));
     v.push(Op::RustfmtConfig(Some("rustfmt.toml".into())));
     v.push(Op::ClangArg("-DX=1".into()));
+    v.push(Op::Header(0));
     v.push(Op::FieldAttr("Foo".into(), "a".into(), "#[allow(dead_code)]".into()));
+    v.push(Op::FieldAttr("Foo".into(), "a".into(), "#[doc = \"the a field\"]".into()));
     v
 }
 
